@@ -18,7 +18,7 @@ import time
 
 import z3
 
-from .symval import (Coll, MapC, NR, ArrC, ContractError, DictC, ExcVal, Func, I, ListC, MaybeNone, Method, Module, Obj, Opaque,
+from .symval import (Arr2C, Coll, MapC, NR, ArrC, ContractError, DictC, ExcVal, Func, I, ListC, MaybeNone, Method, Module, Obj, Opaque,
                      R, Bo, Ref, SeqC, Sort, State, TStr, Unsupported, fresh, rv)
 from .report import REPO
 
@@ -419,6 +419,10 @@ class Engine:
             return zand(ca.n == cb.n, z3.ForAll([k], z3.Implies(z3.And(k >= 0, k < ca.n), ca.arr[k] == cb.arr[k])))
         if isinstance(ca, MapC) and isinstance(cb, MapC):
             return zand(ca.n == cb.n, ca.dom == cb.dom, ca.val == cb.val)
+        if isinstance(ca, Arr2C) and isinstance(cb, Arr2C):
+            i, j = fresh('i', I), fresh('j', I)
+            return zand(ca.n0 == cb.n0, ca.n1 == cb.n1, z3.ForAll([i, j], z3.Implies(
+                z3.And(i >= 0, i < ca.n0, j >= 0, j < ca.n1), ca.at(i, j) == cb.at(i, j))))
         if isinstance(ca, ListC) and isinstance(cb, ListC):
             if len(ca.items) != len(cb.items):
                 return False
@@ -1000,6 +1004,9 @@ class Engine:
             n = fresh(name + '.len', I)
             st.assume(n >= 0)
             return SeqC(fresh(name, c.arr.sort()), n, None if c.nans is None else fresh(name + '.nans', z3.ArraySort(I, Bo)))
+        if isinstance(c, Arr2C):
+            fn = z3.Function('%s!%d' % (name, len(self.obligations) + id(c) % 100000), I, I, R)
+            return Arr2C(lambda i, j: fn(i, j), c.n0, c.n1)
         if isinstance(c, MapC):
             n = fresh(name + '.size', I)
             st.assume(n >= 0)
@@ -1359,7 +1366,29 @@ class Engine:
             return sl.elts[1]
         return sl
 
+    def sub2d(self, c, sl, st):
+        """classify a 2-D subscript: ('row', i) | ('col', j) | ('elem', i, j)"""
+        if isinstance(sl, ast.Tuple) and len(sl.elts) == 2:
+            a, b = sl.elts
+            full = lambda x: isinstance(x, ast.Slice) and x.lower is None and x.upper is None and x.step is None  # noqa
+            if full(b) and not isinstance(a, ast.Slice):
+                return ('row', to_z3(self.ev(a, st)))
+            if full(a) and not isinstance(b, ast.Slice):
+                return ('col', to_z3(self.ev(b, st)))
+            if not isinstance(a, ast.Slice) and not isinstance(b, ast.Slice):
+                return ('elem', to_z3(self.ev(a, st)), to_z3(self.ev(b, st)))
+        raise Unsupported('2-D subscript %s' % ast.unparse(sl))
+
     def load_sub(self, base, sl, st):
+        if isinstance(base, Ref) and isinstance(st.content(base), Arr2C):
+            c = st.content(base)
+            k = self.sub2d(c, sl, st)
+            j = fresh('k', I)
+            if k[0] == 'row':
+                return st.new_ref(ArrC(z3.Lambda([j], c.at(k[1], j)), c.n1, None), 'row')
+            if k[0] == 'col':
+                return st.new_ref(ArrC(z3.Lambda([j], c.at(j, k[1])), c.n0, None), 'col')
+            return NR(c.at(k[1], k[2]))
         sl = self.project(sl)
         if isinstance(sl, ast.Constant) and sl.value is None and getattr(self.c, 'row_projection', False):
             return base          # x[:, None] on a projected scalar
@@ -1459,6 +1488,21 @@ class Engine:
         raise Unsupported('subscript load on %r' % (base,))
 
     def store_sub(self, base, sl, value, st):
+        if isinstance(base, Ref) and isinstance(st.content(base), Arr2C):
+            c = st.content(base)
+            k = self.sub2d(c, sl, st)
+            vc = st.content(value) if isinstance(value, Ref) else None
+
+            def val_at(t):
+                return vc.vals[t] if isinstance(vc, ArrC) else as_real(value).val
+            if k[0] == 'row':
+                f = lambda i, j, c=c, k=k: z3.If(i == k[1], val_at(j), c.at(i, j))  # noqa
+            elif k[0] == 'col':
+                f = lambda i, j, c=c, k=k: z3.If(j == k[1], val_at(i), c.at(i, j))  # noqa
+            else:
+                f = lambda i, j, c=c, k=k: z3.If(z3.And(i == k[1], j == k[2]), as_real(value).val, c.at(i, j))  # noqa
+            st.set_content(base, Arr2C(f, c.n0, c.n1))
+            return
         sl = self.project(sl)
         hk = self.c.calls.get('__store__')
         if hk is not None:
@@ -1838,6 +1882,12 @@ class Engine:
             return Func(full) if (full in self.externals or full in self.c.calls) else Module(full)
         if isinstance(base, MaybeNone):
             return self.getattr(base.value, attr, st, node)
+        if isinstance(base, Ref) and isinstance(st.content(base), Arr2C):
+            c2 = st.content(base)
+            if attr == 'T':
+                return st.new_ref(Arr2C(lambda i, j, c2=c2: c2.at(j, i), c2.n1, c2.n0), 'transpose')
+            if attr == 'ndim':
+                return 2
         if isinstance(base, Ref) and isinstance(st.content(base), ArrC):
             if attr == 'ndim':
                 return 1
@@ -1850,6 +1900,19 @@ class Engine:
         if isinstance(a, Ref) or isinstance(b, Ref):
             ca = st.content(a) if isinstance(a, Ref) else None
             cb = st.content(b) if isinstance(b, Ref) else None
+            if isinstance(ca, Arr2C) or isinstance(cb, Arr2C):
+                if isinstance(op, ast.MatMult):
+                    h = self.c.calls.get('__matmul__')
+                    if h is None:
+                        raise Unsupported('matrix product needs a contract')
+                    return h(self, st, [a, b], {}, None)
+                m = ca if isinstance(ca, Arr2C) else cb
+
+                def f(i, j, ca=ca, cb=cb, a=a, b=b):
+                    x = NR(ca.at(i, j)) if isinstance(ca, Arr2C) else (ca.at(j) if isinstance(ca, ArrC) else as_real(a))
+                    y = NR(cb.at(i, j)) if isinstance(cb, Arr2C) else (cb.at(j) if isinstance(cb, ArrC) else as_real(b))
+                    return as_real(self.binop(op, x, y, st)).val
+                return st.new_ref(Arr2C(f, m.n0, m.n1), 'arith2d')
             if isinstance(ca, ArrC) or isinstance(cb, ArrC):
                 return st.new_ref(self.arr_binop(op, ca if isinstance(ca, ArrC) else a, cb if isinstance(cb, ArrC) else b, st),
                                   'arith')
@@ -2275,6 +2338,9 @@ def _abs(ex, st, args, kw, node):
         return abs(v)
     if is_intlike(v):
         return z3.If(v >= 0, v, -v)
+    if isinstance(v, Ref) and isinstance(st.content(v), Arr2C):
+        c = st.content(v)
+        return st.new_ref(Arr2C(lambda i, j, c=c: z3.If(c.at(i, j) >= 0, c.at(i, j), -c.at(i, j)), c.n0, c.n1), 'abs2d')
     if isinstance(v, Ref):
         return ex.arr_unary(lambda x: NR(z3.If(x.val >= 0, x.val, -x.val), x.nan), st.content(v), st)
     x = as_real(v)
